@@ -267,6 +267,15 @@ def run_check(modname: str, tier: str, seed: int, replay_path: Optional[str]) ->
         with open(replay_path) as f:
             doc = json.load(f)
         msgs = mod.replay(doc["case"])
+        classify = getattr(mod, "classify", None)
+        key = classify(doc["case"], msgs) if (classify and msgs) else None
+        if key is not None and any(kf["property"] == prop and kf["key"] == key and kf["status"] == "open" for kf in load_known()):
+            # the stored case shows a listed, open finding and nothing else
+            kf = [k for k in load_known() if k["property"] == prop and k["key"] == key][0]
+            print(f"KNOWN-FINDING: property={prop} {kf['what']}")
+            for m in msgs[:10]:
+                print("  " + m)
+            return 0
         if msgs:
             print(f"VIOLATION property={prop} replay={replay_path}")
             for m in msgs[:10]:
